@@ -16,10 +16,15 @@ def classify(req, obs, rule):
 
 PROP = {
     "id": "C06",
-    "lean_targets": ["WmModel.Props.C06"],
+    "lean_targets": ["WmModel.Props.C06", "WmModel.Props.C06Old"],
     "audit_module": "Audit.C06",
     "theorems": [
-        "Wm.RouterLife.close_nil_means_quiet", "Wm.RouterLife.no_start_after_close_nil",
+        "Wm.RouterLife.close_nil_means_quiet", "Wm.RouterLife.no_start_after_close_nil", "Wm.RouterLife.message_fate",
+        "Wm.RouterLife.publisher_closed_before_close_returns", "Wm.RouterLife.publisher_closed_at_most_once",
+        "Wm.RouterLife.subscriber_closed_by_handle_close", "Wm.RouterLife.close_timeout_returns_error",
+        "Wm.RouterLife.runhandlers_progress", "Wm.RouterLife.every_close_call_can_proceed",
+        "Wm.RouterLife.close_again_returns_nil", "Wm.RouterLife.run_returns_only_after_closed",
+        "Wm.RouterLife.Old.close_race_witness", "Wm.RouterLife.Old.close_skips_subscriber_witness",
     ],
     "tie_theorems": [],
     "harness": "c06",
@@ -62,3 +67,35 @@ PROP = {
     "explanation": "close_nil_means_quiet / no_start_after_close_nil follow from an inductive invariant over all 48 actions of RouterLife "
                    "(once the loops' wait succeeded no loop can dispatch; hence the running-handlers wait is stable).",
 }
+
+
+def extra(run):
+    """conformance statistics (model states / transitions explored, inconclusive traces) into the evidence"""
+    import os, subprocess
+    cases = os.path.join(os.path.dirname(os.path.dirname(os.path.abspath(__file__))), ".build", "%s.cases" % PROP["id"])
+    exe = os.path.join(os.path.dirname(os.path.dirname(os.path.abspath(__file__))), "lean", ".lake", "build", "bin", PROP["driver"])
+    if not (os.path.exists(cases) and os.path.exists(exe)):
+        return
+    lines = ["S " + l[4:].rstrip("\n") for l in open(cases, errors="replace") if l.startswith("REQ trace ")]
+    if not lines:
+        return
+    try:
+        out = subprocess.run([exe], input="\n".join(lines) + "\n", stdout=subprocess.PIPE, text=True, timeout=900).stdout.split("\n")
+    except Exception as e:  # statistics only
+        run.cov["conformance"] = {"error": str(e)}
+        return
+    st = {"traces_checked": 0, "inconclusive_fuel": 0, "rejected": 0, "max_state_set": 0, "model_transitions": 0, "not_marked": 0}
+    for l in out:
+        if l.startswith("skipped"):
+            st["not_marked"] += 1
+        elif l.startswith(("true", "false")):
+            st["traces_checked"] += 1
+            f = dict(x.split("=") for x in l.split()[1:])
+            st["rejected"] += l.startswith("true")
+            st["inconclusive_fuel"] += f.get("exhausted") == "true"
+            st["max_state_set"] = max(st["max_state_set"], int(f.get("states", 0)))
+            st["model_transitions"] += int(f.get("trans", 0))
+    run.cov["conformance"] = st
+
+
+PROP["extra"] = extra
